@@ -786,7 +786,7 @@ func (x *skx) printOp(first *bool, name string, fd *ast.FuncDecl) {
 // the monitor types: structs whose own methods take their single mutex
 var skMonitors = []struct {
 	dir, typ, label string
-	fieldCalls     map[string]string
+	fieldCalls      map[string]string
 }{
 	{"internal/model/core", "Transactions", "core.Transactions", nil},
 	{"internal/model/core", "Pool", "core.Pool", nil},
